@@ -3,6 +3,7 @@ package gen
 import (
 	"fmt"
 	"math"
+	"math/big"
 	"strconv"
 	"strings"
 	"unicode/utf8"
@@ -182,9 +183,9 @@ func (g *jsonGen) number() val.V {
 		lit = Pick(r, jsonIntLits)
 	case 2:
 		if g.o.BigNums {
-			lit = Pick(r, jsonBigLits)
+			lit = bigLiteral(r)
 		} else {
-			lit = strconv.FormatInt(int64(r.U64()), 10)
+			lit = nearBoundaryLiteral(r)
 		}
 	case 3:
 		lit = strconv.FormatUint(r.U64()>>uint(r.Intn(64)), 10)
@@ -221,6 +222,56 @@ func (g *jsonGen) number() val.V {
 }
 
 func float64FromBits(b uint64) float64 { return math.Float64frombits(b) }
+
+var big2p64 = new(big.Int).Lsh(big.NewInt(1), 64)
+var big2p63 = new(big.Int).Lsh(big.NewInt(1), 63)
+
+// nearBoundaryLiteral: integer literals inside the 64-bit range, dense around
+// its edges (2^63 ± d, 2^64 - d, -2^63 + d).
+func nearBoundaryLiteral(r *Rand) string {
+	d := big.NewInt(int64(r.Intn(120)))
+	switch r.Intn(5) {
+	case 0:
+		return new(big.Int).Sub(new(big.Int).Sub(big2p64, big.NewInt(1)), d).String() // MaxUint64 - d
+	case 1:
+		return new(big.Int).Add(big2p63, d).String() // 2^63 + d
+	case 2:
+		return new(big.Int).Sub(new(big.Int).Sub(big2p63, big.NewInt(1)), d).String() // MaxInt64 - d
+	case 3:
+		return new(big.Int).Neg(new(big.Int).Sub(big2p63, d)).String() // MinInt64 + d
+	}
+	return strconv.FormatInt(int64(r.U64()), 10)
+}
+
+// bigLiteral: integer literals OUTSIDE the 64-bit range, dense right beyond
+// its edges and around every place a digit-by-digit overflow check can slip:
+// 2^64 + d, k*2^64 + d (values that wrap to small numbers), MaxUint64 with
+// extra digits, -2^63 - d, random 20..30-digit numbers, huge exponents.
+func bigLiteral(r *Rand) string {
+	d := big.NewInt(int64(r.Intn(200)))
+	switch r.Intn(9) {
+	case 0:
+		return Pick(r, jsonBigLits)
+	case 1:
+		return new(big.Int).Add(big2p64, d).String()
+	case 2:
+		k := big.NewInt(int64(r.Range(2, 12)))
+		return new(big.Int).Add(new(big.Int).Mul(big2p64, k), d).String()
+	case 3:
+		return new(big.Int).Neg(new(big.Int).Add(new(big.Int).Add(big2p63, big.NewInt(1)), d)).String()
+	case 4:
+		return "18446744073709551615" + digits(r, r.Range(1, 4))
+	case 5:
+		return "1844674407370955" + digits(r, r.Range(4, 6))
+	case 6:
+		return Pick(r, []string{"", "-"}) + string(byte('1'+r.Intn(9))) + digits(r, r.Range(19, 30))
+	case 7:
+		// wraps to a small number modulo 2^64
+		k := big.NewInt(int64(r.Range(1, 9)))
+		return Pick(r, []string{"", "-"}) + new(big.Int).Add(new(big.Int).Mul(big2p64, k), big.NewInt(int64(r.Intn(10)))).String()
+	}
+	return Pick(r, []string{"1e400", "-1e400", "1E999", "1.0e309", "123456789e300"})
+}
 
 func digits(r *Rand, n int) string {
 	b := make([]byte, n)
